@@ -55,6 +55,12 @@ def specs(tier, seed):
     # one trial deleting one particle and inserting another: the composition changes at constant atom count
     add("GrandCanonical", "AK", [["x", "G[E0_trans,E1_trans]", 1.0, "gc"], ["d", "D_ball"]], "pairsoft")
     add("GrandCanonical", "AK", [["x", "G[E0_trans,E1_trans]", 1.0, "gc"]], "peratom")
+    # two species and a species-dependent potential: a rejected double deletion must put every species back in its place
+    add("GrandCanonical", "AK", [["e", "E_trans*2"]], "pairspecies")
+    add("GrandCanonical", "AK", [["e", "E_trans+E_trans"], ["d", "D_ball"]], "pairspecies")
+    # constrained atoms moved by a trial that does not honour the constraint (cell scaling), then rejected
+    add("Isobaric", "A3", [["c", "C_iso"], ["d", "D_ball"]], "pairsoft", decos=["fix:0"])
+    add("Isotension", "T3", [["c", "C_aniso"]], "pairsoft", decos=["fix:1"])
     # state changed by the user between construction and the first run
     add("Canonical", "A3", [["d", "D_ball"]], "pairsoft", late=["shift"])
     add("Isobaric", "A3", [["c", "C_iso"], ["d", "D_ball"]], "pairsoft", late=["strain"])
@@ -74,7 +80,7 @@ def specs(tier, seed):
     return out
 
 
-STYLE = {"pairsoft": "caching", "harmonic": "caching", "quartic": "caching", "zero": "caching", "bare": "stateless", "peratom": "per-atom-state", "lj": "per-atom-state:ase-lj", "emt": "per-atom-state:ase-emt"}
+STYLE = {"pairsoft": "caching", "pairspecies": "caching", "harmonic": "caching", "quartic": "caching", "zero": "caching", "bare": "stateless", "peratom": "per-atom-state", "lj": "per-atom-state:ase-lj", "emt": "per-atom-state:ase-emt"}
 
 
 def _probe(sysm):
